@@ -25,7 +25,12 @@ TXNS = [
     T('Salary', 'Pay', 'Job', -3000.0, 2025, 1, 31, ['income']), T('Broker', 'Save', 'IRA', 500.0, 2025, 2, 3, ['Investment']),
     T('Move', 'X', 'Y', 250.0, 2025, 3, 3, ['transfer']), T('Refunds', 'Shop', 'Ret', -20.0, 2025, 3, 9), T('Refunds', 'Shop', 'Ret', 60.0, 2025, 3, 10),
     T('OneOff', 'Shop', 'Big', 1500.0, 2024, 12, 30, ['gift']),
+    # the same calendar month in two years: month buckets are year-months
+    T('Insurance', 'Bills', 'Ins', 100.0, 2024, 3, 4), T('Insurance', 'Bills', 'Ins', 100.0, 2025, 3, 4), T('Insurance', 'Bills', 'Ins', 200.0, 2025, 4, 4),
 ]
+
+
+PERIOD_MONTHS = len({t['date'].strftime('%Y-%m') for t in TXNS})      # the analysis period: distinct year-months over all transactions
 
 
 def merchants_spec():
@@ -91,10 +96,13 @@ VIEWS = [
     ('merchant == "gym"', lambda s: s['merchant'].lower() == 'gym'),
     ('unknown_name > 1', lambda s: False),
     ('total > "x"', lambda s: False),
-    ('months >= max_val(2, period("month") * 0.5)', lambda s: s['months'] >= max(2, 4 * 0.5)),
+    ('months >= max_val(2, period("month") * 0.5)', lambda s: s['months'] >= max(2, PERIOD_MONTHS * 0.5)),
     ('total > 0 and total < 0', lambda s: False),
     ('round(total) == 15', lambda s: round(s['total']) == 15),
     ('abs(total) > 35 and total < 45', lambda s: abs(s['total']) > 35 and s['total'] < 45),
+    # a view-local variable that shadows a primitive, inside this view only
+    ('total < 50', lambda s: s['total'] / s['months'] < 50, ['total = sum(payments) / months']),
+    ('months == 1', lambda s: len(s['payments']) == 1, ['months = count(payments)']),
 ]
 
 
@@ -104,6 +112,8 @@ def views_text(idxs):
         lines.append('[V%d]' % i)
         if 'lim' in VIEWS[i][0]:
             lines.append('lim = 900')
+        if len(VIEWS[i]) > 2:
+            lines.extend(VIEWS[i][2])
         lines.append('filter: %s' % VIEWS[i][0])
         lines.append('')
     return '\n'.join(lines)
@@ -171,6 +181,16 @@ def main():
         g = check([i, j], spec)
         if g is not None and i in singles and g.get('V%d' % i) != singles[i]:
             O.fail('C10.views_not_independent', {'views': [i, j], 'filters': [VIEWS[i][0], VIEWS[j][0]]}, singles[i], g.get('V%d' % i))
+    # views with local variables next to every other view, in both orders (a local must not be visible in another view)
+    for i in [x for x in range(n) if len(VIEWS[x]) > 2 or 'lim' in VIEWS[x][0]]:
+        for j in range(n):
+            if i == j:
+                continue
+            for order in ([i, j], [j, i]):
+                g = check(order, spec)
+                for v in order:
+                    if g is not None and v in singles and g.get('V%d' % v) != singles[v]:
+                        O.fail('C10.views_not_independent', {'views': order, 'filters': [VIEWS[x][0] for x in order]}, singles[v], g.get('V%d' % v))
     check(list(range(n)), spec)
     check(list(reversed(range(n))), spec)
     O.sample({'views': [2, 14], 'filters': [VIEWS[2][0], VIEWS[14][0]]})
